@@ -12,6 +12,7 @@ NOT_APPLICABLE = {
     'C34': 'run-time dispatch on argument types generated from a type lattice; nothing table-shaped to compare statically',
     'C47': 'equivalence of a hand-written scanner with the Python tokenizer on all inputs; the only structural facts are not necessary conditions in a refactoring-robust form',
 }
+HOLD = set(open(os.path.join(HERE, 'tools', 'hold.txt')).read().split()) if os.path.exists(os.path.join(HERE, 'tools', 'hold.txt')) else set()
 NOT_BUILT = 'static rule designed (DESIGN.md section 4) but not built/validated yet; not claimed until its core rules are silent on the clean tree and fire on their self-test variants'
 
 props = [json.loads(l) for l in open(os.path.join(HERE, 'properties.jsonl'))]
@@ -21,7 +22,7 @@ for p in props:
     if pid in NOT_APPLICABLE:
         na.append({'property_id': pid, 'reason': NOT_APPLICABLE[pid]})
         continue
-    if not os.path.exists(os.path.join(HERE, 'sa', 'props', pid + '.py')):
+    if pid in HOLD or not os.path.exists(os.path.join(HERE, 'sa', 'props', pid + '.py')):
         na.append({'property_id': pid, 'reason': NOT_BUILT})
         continue
     mod = importlib.import_module('sa.props.' + pid)
